@@ -35,6 +35,16 @@ def ctxkw(h):
     return kw
 
 
+class G(Group):
+    """Group that remembers the case being evaluated (for the witness of an unexpected exception)"""
+
+    last_case = None
+
+    def case(self, ident, nontrivial=True):
+        self.last_case = ident
+        Group.case(self, ident, nontrivial)
+
+
 @contextmanager
 def guarded(g, name, section):
     """an exception escaping a library call that the property says must succeed is a failure, not a harness crash"""
@@ -45,7 +55,7 @@ def guarded(g, name, section):
 
         tb = traceback.extract_tb(err.__traceback__)
         where = [f"{os.path.basename(fr.filename)}:{fr.lineno}" for fr in tb[-3:]]
-        g.fail(f"crash:{section}:{name}:{type(err).__name__}", f"call raised unexpectedly: {err}"[:200], {"hasher": name, "section": section, "trace": where})
+        g.fail(f"crash:{section}:{name}:{type(err).__name__}", f"call raised unexpectedly: {err}"[:200], {"hasher": name, "section": section, "trace": where, "case": repr(getattr(g, "last_case", None))[:300]})
 
 
 class Subject:
@@ -158,7 +168,7 @@ def build(tier, rng):
         g.check(o[0] == "exc" and o[3], key, what, {"hasher": s.name, "using": repr(kw), "outcome": repr(o)[:200]})
 
     # =============================================================================================
-    g = Group(
+    g = G(
         "rounds",
         "HasRounds.using / _clip_to_desired_rounds / _generate_rounds / _calc_needs_update / norm_integer",
         "every hasher with a cost setting x rounds | min/max/default (names and *_desired_* aliases) | vary_rounds (int, float, percent, strings) at cheap values inside the limits, one below / above the hard limits x relaxed on/off x ints or decimal strings; hashes parsed back; update check at window edges -1/0/+1",
@@ -280,7 +290,7 @@ def build(tier, rng):
     groups.append(g)
 
     # =============================================================================================
-    g = Group(
+    g = G(
         "salt",
         "HasSalt.using / _clip_to_valid_salt_size / _norm_salt",
         "every hasher with salt_size: min, default, max (<=48), as int or string, one below / above the limits x relaxed on/off; every hasher with salt: pinned salt (taken from a parsed hash), too long (strict / relaxed truncation), too short; parsed back",
@@ -343,7 +353,7 @@ def build(tier, rng):
     groups.append(g)
 
     # =============================================================================================
-    g = Group(
+    g = G(
         "ident-variant-version",
         "HasManyIdents.using / fshp.using / bcrypt_sha256.using / scrypt.using / ParallelismMixin.using / scram.using / TruncateMixin.using / unix_disabled.using / cisco_type7.using",
         "ident: every ident value and alias of every multi-ident hasher ($2x$ excepted: documented unsupported), unknown ident; fshp variants 0..3 by number / digit string / digest name, unknown; bcrypt_sha256 version 1, 2, 3 x ident; scrypt block_size / parallelism 1, 2, 4, '3', 0 (strict / relaxed); scram algs lists / strings, without sha-1, over-long name; truncate_error True/False/'true'/'no'/'maybe' on every hasher that has it; unix_disabled markers; cisco_type7 salt 0..52, 53",
@@ -504,7 +514,7 @@ def build(tier, rng):
     groups.append(g)
 
     # =============================================================================================
-    g = Group(
+    g = G(
         "chains-and-isolation",
         "MinimalHandler.using (fresh subclass) / HasRounds.using on a derived hasher / PrefixWrapper.using",
         "every hasher with a cost setting x generated chains of 2..4 using() calls (min/max/default/rounds/vary at 5 cheap values, later calls inheriting earlier ones; the witness class 'later min above inherited max / later max below inherited min' excluded) against a sequential model; every link's attribute snapshot before/after deriving from it and after interleaved hashing by parent, child and grandchild; salt_size / ident / variant links mixed in",
@@ -628,7 +638,7 @@ def build(tier, rng):
     groups.append(g)
 
     # =============================================================================================
-    g = Group("chained-window-consistency", "HasRounds.using (inductive invariant min <= default <= max)", "a later min above an inherited max / a later max below an inherited min, on sha256_crypt, pbkdf2_sha256, bcrypt-style log2 (phpass) and a PrefixWrapper: refused, or the resulting window is consistent and fresh hashes are not flagged")
+    g = G("chained-window-consistency", "HasRounds.using (inductive invariant min <= default <= max)", "a later min above an inherited max / a later max below an inherited min, on sha256_crypt, pbkdf2_sha256, bcrypt-style log2 (phpass) and a PrefixWrapper: refused, or the resulting window is consistent and fresh hashes are not flagged")
     KEY = "using:chained-min-above-inherited-max"
     for name, first, second in (
         ("sha256_crypt", dict(max_rounds=2000, default_rounds=1500), dict(min_rounds=3000)),
@@ -659,7 +669,7 @@ def build(tier, rng):
     groups.append(g)
 
     # =============================================================================================
-    g = Group("globals-unchanged", "passlib.hash.<name> after all of the above", "every hasher: attribute snapshot identical to the one taken before the first using(); passlib.hash.<name> / registry object identity; default-cost hash format (salt size, identifier, cost) for hashers whose default is cheap (thorough: all)")
+    g = G("globals-unchanged", "passlib.hash.<name> after all of the above", "every hasher: attribute snapshot identical to the one taken before the first using(); passlib.hash.<name> / registry object identity; default-cost hash format (salt size, identifier, cost) for hashers whose default is cheap (thorough: all)")
     for s in subjects:
         with guarded(g, s.name, "globals"):
             g.case(s.name)
